@@ -364,6 +364,8 @@ class Vector():
 		# Python Date interceptors
 		if target_type is date:
 			def caster(x):
+				if isinstance(x, datetime):
+					return x.date()  # a datetime is not a date value: keep the calendar day
 				if isinstance(x, date):
 					return x
 				return date.fromisoformat(x)
